@@ -111,6 +111,9 @@ impl Check for C14 {
         if s.call_prime > 0 {
             labels.add("prime-call");
         }
+        if s.arrow_complex_callee > 0 {
+            labels.add("sugar:arrow-call-with-complex-callee");
+        }
         if s.call_arrow > 0 {
             labels.add("arrow-call");
         }
